@@ -1,8 +1,8 @@
 #!/verif/.venv/bin/python
 # Replay of a solver counterexample against the unmodified code (no shims).
-# property=C08 kernel=mappable label=mappable:index_targets_declared_order
+# property=C08 kernel=build label=build:independent_results
 import sys
 sys.path[:0] = ["/repo/pulser-core", "/repo/pulser-simulation", "/verif"]
 from symx.replay import replay
-sys.exit(replay(check='checks.c08', kernel='mappable', shape={'ids': ['control', 'target', 'ancilla'], 'chosen': {'control': 5, 'target': 0, 'ancilla': 9}, 'index': 1},
-                assignment={'amp': '1/1024'}, label='mappable:index_targets_declared_order'))
+sys.exit(replay(check='checks.c08', kernel='build', shape={'program': 'vars_list_operand'},
+                assignment={}, label='build:independent_results'))
